@@ -92,7 +92,7 @@ Problem(m, kind, s, p, repaired) ==
 \* which variant of _make_problem_description_for the code under test has: FALSE = as found (dereferences None),
 \* TRUE = after the repair `(scenario.error_message or u"").strip()`.  Only the predictions (design-level Emit, DIVERGE
 \* lines of the trace judge) depend on it, no clause does.
-RepairedCode == FALSE
+RepairedCode == TRUE
 
 Report0 == [tests |-> 0, errors |-> 0, failed |-> 0, skipped |-> 0, cases |-> <<>>, crashed |-> FALSE, at |-> 0]
 Case(s, st, entries) == [el |-> s, status |-> st, entries |-> entries]
